@@ -144,16 +144,24 @@ def _run_driver_chunk(lines):
     if not lines:
         return []
     inp = "\n".join(json.dumps(l, separators=(",", ":")) for l in lines) + "\n"
-    try:
-        p = subprocess.run(["lake", "env", "lean", "--run", "Driver.lean"], cwd=LEAN_DIR, input=inp,
-                           capture_output=True, text=True, timeout=3000)
-    except subprocess.TimeoutExpired:
-        raise InfraError("model driver timed out")
-    outs = [l for l in p.stdout.split("\n") if l.strip()]
-    if p.returncode != 0 or len(outs) != len(lines):
-        raise InfraError(f"model driver failed rc={p.returncode} got {len(outs)}/{len(lines)} lines\n"
-                         f"{p.stderr[-2000:]}\n{p.stdout[-500:]}")
-    return [json.loads(l) for l in outs]
+    env = dict(os.environ)
+    env["LEAN_PATH"] = os.path.join(LEAN_DIR, ".lake", "build", "lib", "lean")
+    last = ""
+    for attempt in range(3):  # a driver process killed from outside (rc < 0, seen under heavy machine load) is retried
+        try:
+            p = subprocess.run(["lean", "--run", "Driver.lean"], cwd=LEAN_DIR, input=inp, env=env,
+                               capture_output=True, text=True, timeout=3000)
+        except subprocess.TimeoutExpired:
+            raise InfraError("model driver timed out")
+        outs = [l for l in p.stdout.split("\n") if l.strip()]
+        if p.returncode == 0 and len(outs) == len(lines):
+            return [json.loads(l) for l in outs]
+        last = (f"model driver failed rc={p.returncode} got {len(outs)}/{len(lines)} lines\n"
+                f"{p.stderr[-2000:]}\n{p.stdout[-500:]}")
+        if p.returncode >= 0:
+            break
+        time.sleep(2 + 3 * attempt)
+    raise InfraError(last)
 
 
 def run_model(lines, shards=None):
